@@ -2,10 +2,15 @@ package flight12
 
 //symgo:pkg github.com/pion/dtls/v3/internal/flight/flight12
 //symgo:replace (*github.com/pion/dtls/v3/internal/state.State12).InitCipherSuite zzRecInitCipherSuite
+//symgo:replace github.com/pion/dtls/v3/pkg/crypto/prf.VerifyDataServer zzFakeVerifyDataServer
+//symgo:param NRPROTO quick=2 thorough=3
+//symgo:stub prf.VerifyDataServer returns twelve zero bytes (the server Finished of the abbreviated flight is C04 / C14)
 //symgo:stub State12.InitCipherSuite is a recorder (record keys are not derived): the claim is whether the abbreviated path is entered at all
 
 import (
+	dtlsconfig "github.com/pion/dtls/v3/internal/config"
 	dtlsflight "github.com/pion/dtls/v3/internal/flight"
+	"github.com/pion/dtls/v3/pkg/crypto/prf"
 	dtlsstate "github.com/pion/dtls/v3/internal/state"
 	"github.com/pion/dtls/v3/pkg/protocol"
 	"github.com/pion/dtls/v3/pkg/protocol/alert"
@@ -84,4 +89,73 @@ func zzEMSClientResume() {
 	zzsymAssert(perr == nil && a == nil, "resume_continues")
 	zzsymAssert(zzResumeInits == 1, "resume_enters_abbreviated_path")
 	zzsymCover("resume_entered")
+}
+
+func zzFakeVerifyDataServer(_, _ []byte, _ prf.HashFunc) ([]byte, error) { return make([]byte, 12), nil }
+
+// ALPN on the ABBREVIATED handshake, server side: a client that offers a stored session (its store returns the
+// session id) and 0..NRPROTO one-byte protocol names reaches a server whose store knows that session and which is
+// configured with 0..NRPROTO arbitrary names (the lists may have changed since the session was created). The real
+// flight1Generate, flight0Parse (-> Flight4b) and flight4bGenerate run. Proved: if both sides configured ALPN and
+// no name is common, the server stops with a fatal no_application_protocol alert instead of completing the
+// resumption without a protocol; otherwise the protocol it answers with and records is in the client's offer and
+// in its own list, and "none" only when one side has no list.
+//
+//symgo:entry covers=resumed_alpn_selected,resumed_no_alpn,resumed_no_overlap_refused
+func zzALPNServerResume() {
+	zzResumeInits = 0
+	sid := zzsymBytes("sid", 2)
+	secret := zzsymBytes("stored_secret", 2)
+	ccfg, scfg := zzPSKConfig(), zzPSKConfig()
+	n := zzsymParam("NRPROTO")
+	for i, k := 0, zzsymChoice("nclient", n+1); i < k; i++ {
+		ccfg.SupportedProtocols = append(ccfg.SupportedProtocols, zzsymString("client_proto", 1))
+	}
+	for i, k := 0, zzsymChoice("nserver", n+1); i < k; i++ {
+		scfg.SupportedProtocols = append(scfg.SupportedProtocols, zzsymString("server_proto", 1))
+	}
+	for _, cfg := range []*dtlsconfig.HandshakeConfig{ccfg, scfg} {
+		cfg.HasSessionStore = true
+		cfg.DelSession = func([]byte) error { return nil }
+		cfg.SetSession = func(_, _, _ []byte) error { return nil }
+		cfg.GetSession = func([]byte) ([]byte, []byte, error) {
+			return append([]byte{}, sid...), append([]byte{}, secret...), nil
+		}
+	}
+	client, server := zzNewPeer(true, ccfg), zzNewPeer(false, scfg)
+	_, a0, err0 := zzGenerate(server, client, Flight0)
+	zzsymAssert(a0 == nil && err0 == nil, "harness_server_starts")
+	sent, a, err := zzGenerate(client, server, Flight1)
+	zzsymAssert(err == nil && a == nil && len(sent) == 1, "harness_client_hello_generated")
+	next, a, err := zzParse(server, Flight0)
+	zzsymAssert(zzFatal(a, err) == nil && err == nil, "harness_server_accepts_hello")
+	zzsymAssert(next == Flight4b, "server_resumes_known_session")
+
+	common := false
+	for _, p := range ccfg.SupportedProtocols {
+		common = zzsymOr(common, zzNameListHas(scfg.SupportedProtocols, p))
+	}
+	answer, a, err := zzGenerate(server, client, Flight4b)
+	if a = zzFatal(a, err); a != nil || err != nil {
+		zzsymAssert(a != nil && a.Level == alert.Fatal && a.Description == alert.NoApplicationProtocol,
+			"resumed_alpn_failure_alerts_no_application_protocol")
+		zzsymAssert(zzsymNot(common), "resumed_alpn_failure_only_without_common_protocol")
+		zzsymAssert(len(ccfg.SupportedProtocols) > 0 && len(scfg.SupportedProtocols) > 0, "resumed_alpn_failure_only_if_both_configured")
+		zzsymCover("resumed_no_overlap_refused")
+
+		return
+	}
+	sh, _ := answer[0].Message.(*handshake.MessageServerHello)
+	zzsymAssert(sh != nil, "resumed_server_hello_first")
+	sp := server.state.NegotiatedProtocol
+	if sp == "" {
+		zzsymAssert(len(ccfg.SupportedProtocols) == 0 || len(scfg.SupportedProtocols) == 0,
+			"resumed_no_protocol_only_if_one_side_has_no_alpn")
+		zzsymCover("resumed_no_alpn")
+
+		return
+	}
+	zzsymAssert(zzNameListHas(ccfg.SupportedProtocols, sp), "resumed_protocol_from_client_list")
+	zzsymAssert(zzNameListHas(scfg.SupportedProtocols, sp), "resumed_protocol_from_server_list")
+	zzsymCover("resumed_alpn_selected")
 }
